@@ -380,7 +380,7 @@ class C10(Prop):
                 qsum = 0.0
                 for v in mp_["q"]:
                     qsum += v * 1.0
-                for p in ((0.0, 1.0) if qsum >= 1.0 else (0.0,)):      # (known finding: p above sum q never returns)
+                for p in (0.0, 1.0):      # p = 1 above sum q: bracketing stops at +inf since 55bbf88
                     ops.append("mix fam=%s fn=invcdf x=%s %s" % (fam, dhex(p), args))
         return {"name": name, "ops": ops, "sticky": 0}
 
@@ -476,9 +476,8 @@ class C10(Prop):
         out.append({"name": "exact-edges", "ops": [o for o, _ in exp_cases], "expect": [dhex(v) for _, v in exp_cases]})
         for key, ops in REGRESSION:
             out.append({"name": "fixed-" + key, "ops": ops})
-        # known finding (known_findings.d/C10.json): p above the largest cdf value -> the right bracketing loop never ends
-        # (both sides answer `hang`); generated cases keep out of that region (p = 1 only when the coefficients sum to >= 1)
-        out.append({"name": "known-invcdf-p-above-cdf-max", "known_key": "C10:mixture_invcdf:p-above-cdf-max",
+        # repaired in 55bbf88 (was a known finding): p above the largest cdf value -> the right bracketing loop never ended
+        out.append({"name": "fixed-invcdf-p-above-cdf-max",
                     "ops": [_mixop("hxp", "invcdf", 1.0, mu=[0.0], q=[0.1, 0.2, 0.7 - 1e-16], l=[1.0, 2.0, 3.0])]})
         out.append({"name": "fixed-gev-log1p", "ops": [op_f("esl_gev_" + w, [x, 0.0, 1.0, al]) for al in (1e-12, -1e-12, 1.5e-12, 1e-10)
                                                        for x in (-1.0, 1.0, -10.0, nextafter(-10.0, 1)) for w in ("cdf", "logcdf", "surv", "pdf")] +
